@@ -1,5 +1,25 @@
-import DtnVerif.Model.Bytes
-import DtnVerif.Model.Cbor
-import DtnVerif.Lemmas.Bytes
-import DtnVerif.Lemmas.Cbor
+/-
+  Root of the library: every property file (each imports the models and lemmas it needs) and the
+  generated facts. `lake build` checks every theorem; the driver executable is a separate target.
+-/
 import DtnVerif.Generated.Facts
+import DtnVerif.Props.C01
+import DtnVerif.Props.C02
+import DtnVerif.Props.C03
+import DtnVerif.Props.C04
+import DtnVerif.Props.C05
+import DtnVerif.Props.C06
+import DtnVerif.Props.C07
+import DtnVerif.Props.C08
+import DtnVerif.Props.C09
+import DtnVerif.Props.C10
+import DtnVerif.Props.C11
+import DtnVerif.Props.C12
+import DtnVerif.Props.C13
+import DtnVerif.Props.C14
+import DtnVerif.Props.C15
+import DtnVerif.Props.C16
+import DtnVerif.Props.C17
+import DtnVerif.Props.C18
+import DtnVerif.Props.C19
+import DtnVerif.Props.C20
